@@ -2017,6 +2017,7 @@ func (s *Server) Serve(ln net.Listener) error {
 		}
 		s.setState(c, StateNew)
 		s.open.Add(1)
+		verifPoint("srv.accepted")
 		if !wp.Serve(c) {
 			s.open.Add(-1)
 			s.rejectedRequestsCount.Add(1)
@@ -2093,6 +2094,7 @@ func (s *Server) ShutdownWithContext(ctx context.Context) (err error) {
 	defer ticker.Stop()
 
 	for {
+		verifPoint("srv.shutdown.tick")
 		s.closeIdleConns()
 
 		if open := s.open.Load(); open == 0 {
@@ -2633,7 +2635,9 @@ func (s *Server) serveConnCounted(c net.Conn, countConcurrency bool) error {
 
 		// If a client denies a request the handler should not be called
 		if continueReadingRequest {
+			verifPoint("srv.beforeHandler")
 			s.Handler(ctx)
+			verifPoint("srv.afterHandler")
 		}
 
 		timeoutResponse = ctx.timeoutResponse
@@ -2686,6 +2690,7 @@ func (s *Server) serveConnCounted(c net.Conn, countConcurrency bool) error {
 			if bw == nil {
 				bw = acquireWriter(ctx)
 			}
+			verifPoint("srv.beforeWrite")
 			if err = writeResponse(ctx, bw); err != nil {
 				break
 			}
